@@ -10,6 +10,8 @@ import (
 	"sort"
 	"strconv"
 	"strings"
+
+	biscuit "github.com/biscuit-auth/biscuit-go/v2"
 )
 
 // ---------- PRNG: every random choice derives from VERIF_SEED ----------
@@ -227,4 +229,67 @@ func WriteShardsFn(res *Result, outDir, prop, imports string, preamble func(star
 		}
 	}
 	res.Extra["groups"] = groups
+}
+
+// ---- caller-owned buffers ----
+// Every byte slice the harness hands to the library (token bytes, snapshot bytes, key material) lives in a
+// buffer of its own that the harness OVERWRITES as soon as the call returns, as a caller that reuses a
+// receive buffer or a key-rotation buffer would.  A token, authorizer or option value must not keep
+// referring to its caller's memory: whatever it reports later has to come from its own copy.
+func scribble(b []byte) {
+	for i := range b {
+		b[i] ^= 0xA5
+	}
+}
+
+// currentResult: the result of the running property, so that the helpers below can report
+var currentResult *Result
+
+func tokenFace(t *biscuit.Biscuit) string {
+	defer func() { recover() }()
+	bs, err := t.Serialize()
+	ids := t.RevocationIds()
+	return fmt.Sprintf("%x|%v|%x|%s", bs, err, ids, t.String())
+}
+
+func ownedCheck(t *biscuit.Biscuit, err error, before string, orig []byte) {
+	if err != nil || t == nil || currentResult == nil {
+		return
+	}
+	after := tokenFace(t)
+	if after != before {
+		currentResult.Violate("caller-buffer-retained", "a token loaded from a caller's buffer changed (serialized form, revocation identifiers or printed form) when the caller reused that buffer after Unmarshal returned",
+			map[string]interface{}{"token": fmt.Sprintf("%x", orig), "before_buffer_reuse": trunc(before, 600), "after_buffer_reuse": trunc(after, 600)})
+	}
+}
+
+func unmarshalOwned(bs []byte) (*biscuit.Biscuit, error) {
+	buf := append([]byte{}, bs...)
+	t, err := biscuit.Unmarshal(buf)
+	before := ""
+	if err == nil {
+		before = tokenFace(t)
+	}
+	scribble(buf)
+	ownedCheck(t, err, before, bs)
+	return t, err
+}
+
+func unmarshalerOwned(u *biscuit.Unmarshaler, bs []byte) (*biscuit.Biscuit, error) {
+	buf := append([]byte{}, bs...)
+	t, err := u.Unmarshal(buf)
+	before := ""
+	if err == nil {
+		before = tokenFace(t)
+	}
+	scribble(buf)
+	ownedCheck(t, err, before, bs)
+	return t, err
+}
+
+func loadPoliciesOwned(a biscuit.Authorizer, bs []byte) error {
+	buf := append([]byte{}, bs...)
+	err := a.LoadPolicies(buf)
+	scribble(buf)
+	return err
 }
